@@ -12,11 +12,15 @@ impl Rng {
   pub fn below(&mut self, n: usize) -> usize { (self.next() % (n as u64)) as usize }
 }
 
+// the oracles classify keys on their own (the eight modifier keys of the property statements), not through the code under test
+fn ref_is_action_key(k: &KeyCode) -> bool { !matches!(k, KeyCode::LEFTSHIFT | KeyCode::RIGHTSHIFT | KeyCode::LEFTCTRL | KeyCode::RIGHTCTRL | KeyCode::LEFTALT | KeyCode::RIGHTALT | KeyCode::LEFTMETA | KeyCode::RIGHTMETA) }
+fn ref_is_action_mapping(m: &Mapping) -> bool { match m.to.last() { Some(k) => ref_is_action_key(k), None => false } }
 pub fn state_string(m: &Mapper) -> String { format!("{:?}", m.state) }
 
 const LKEYS: [KeyCode; 6] = [KeyCode::A, KeyCode::B, KeyCode::C, KeyCode::LEFTSHIFT, KeyCode::LEFTCTRL, KeyCode::CAPSLOCK];
 const EKEYS: [KeyCode; 8] = [KeyCode::A, KeyCode::B, KeyCode::C, KeyCode::LEFTSHIFT, KeyCode::LEFTCTRL, KeyCode::CAPSLOCK, KeyCode::D, KeyCode::RIGHTCTRL];
 const OUTS: [KeyCode; 3] = [KeyCode::X, KeyCode::Y, KeyCode::RIGHTALT];
+const RARE_MODS: [KeyCode; 4] = [KeyCode::LEFTMETA, KeyCode::RIGHTMETA, KeyCode::LEFTALT, KeyCode::RIGHTSHIFT];
 const FOREIGN: [KeyCode; 2] = [KeyCode::D, KeyCode::RIGHTCTRL];
 // marker event meaning "call release_all" inside a history
 pub const RELEASE_ALL: Event = Event::Released(KeyCode::KPJPCOMMA);
@@ -34,7 +38,7 @@ fn gen_layout(r: &mut Rng, absorbing: bool) -> Layout {
     let pool: Vec<KeyCode> = LKEYS.iter().chain(OUTS.iter()).cloned().collect();
     let mods: [KeyCode; 3] = [KeyCode::LEFTSHIFT, KeyCode::LEFTCTRL, KeyCode::RIGHTALT];
     while to.len() < tl {
-      let k = if heavy && r.below(3) == 0 { mods[r.below(3)] } else { pool[r.below(pool.len())] };
+      let k = if r.below(12) == 0 { RARE_MODS[r.below(4)] } else if heavy && r.below(3) == 0 { mods[r.below(3)] } else { pool[r.below(pool.len())] };
       if !to.contains(&k) { to.push(k); }
     }
     let repeat = match r.below(4) { 0 => Repeat::Disabled, 1 => Repeat::Special { keys: vec![OUTS[0]], delay_ms: 10, interval_ms: 5 }, _ => Repeat::Normal };
@@ -91,7 +95,7 @@ pub fn check_history(prop: &str, layout: &Layout, hist: &Vec<Event>, trace: bool
   // known finding D8 (see /verif/known_findings.txt): an absorbing mapping whose output has no non-modifier key takes over the single
   // absorbing_trigger without lifting earlier absorbed keys. The witness SEARCH stays inside the claimed scope (every absorbing mapping
   // outputs a non-modifier key); a REPLAY (trace = true) checks the full statement.
-  let c08_in_scope = trace || layout.mappings.iter().all(|m| m.absorbing.is_empty() || m.to.iter().any(|k| is_action_key(k)));
+  let c08_in_scope = trace || layout.mappings.iter().all(|m| m.absorbing.is_empty() || m.to.iter().any(|k| ref_is_action_key(k)));
   let mut m = Mapper::for_layout(layout);
   let mut phys: BTreeSet<KeyCode> = BTreeSet::new();
   let mut dev: BTreeSet<KeyCode> = BTreeSet::new();
@@ -162,21 +166,21 @@ pub fn check_history(prop: &str, layout: &Layout, hist: &Vec<Event>, trace: bool
           if !has_abs {
             if m.state.active_mappings.last() != Some(fm) { fail("C03", format!("expected {:?} to fire but the mapping in effect is {:?}", fm, m.state.active_mappings.last())); }
             for o in &fm.to {
-              if is_action_key(o) && !res.events.contains(&Pressed(*o)) { fail("C03", format!("action output {:?} not pressed in the step", o)); }
-              if !is_action_key(o) && !inst.iter().any(|(_, h)| h.contains(o)) && !dev.contains(o) && !res.events.contains(&Pressed(*o)) { fail("C03", format!("modifier output {:?} never down", o)); }
+              if ref_is_action_key(o) && !res.events.contains(&Pressed(*o)) { fail("C03", format!("action output {:?} not pressed in the step", o)); }
+              if !ref_is_action_key(o) && !inst.iter().any(|(_, h)| h.contains(o)) && !dev.contains(o) && !res.events.contains(&Pressed(*o)) { fail("C03", format!("modifier output {:?} never down", o)); }
             }
             if fm.repeat == Repeat::Normal { for o in &fm.to { if !dev.contains(o) { fail("C03", format!("normal-repeat output {:?} not held at the end of the step", o)); } } }
           }
           if fm.repeat != Repeat::Normal {
-            if dev.iter().any(|x| is_action_key(x)) { fail("C07", format!("no-repeat mapping fired but a non-modifier key is held: {:?}", dev)); }
-            for o in &fm.to { if is_action_key(o) && !res.events.contains(&Pressed(*o)) { fail("C07", format!("output {:?} of the no-repeat mapping was not pressed", o)); } }
+            if dev.iter().any(|x| ref_is_action_key(x)) { fail("C07", format!("no-repeat mapping fired but a non-modifier key is held: {:?}", dev)); }
+            for o in &fm.to { if ref_is_action_key(o) && !res.events.contains(&Pressed(*o)) { fail("C07", format!("output {:?} of the no-repeat mapping was not pressed", o)); } }
           }
-          if !has_abs && is_action_mapping(fm) {
+          if !has_abs && ref_is_action_mapping(fm) {
             let fin = *fm.to.last().unwrap();
             if let Some((_, h)) = inst.iter().rev().find(|(ev, _)| *ev == Pressed(fin)) {
-              for o in &fm.to { if !is_action_key(o) && !h.contains(o) { fail("C04", format!("modifier {:?} not down when {:?} is pressed", o, fin)); } }
-              for x in h.iter() { if !is_action_key(x) && !fm.to.contains(x) {
-                let ok = (phys.contains(x) && !fm.from.contains(x)) || m.state.active_mappings.iter().any(|am| !is_action_mapping(am) && am.to.contains(x));
+              for o in &fm.to { if !ref_is_action_key(o) && !h.contains(o) { fail("C04", format!("modifier {:?} not down when {:?} is pressed", o, fin)); } }
+              for x in h.iter() { if !ref_is_action_key(x) && !fm.to.contains(x) {
+                let ok = (phys.contains(x) && !fm.from.contains(x)) || m.state.active_mappings.iter().any(|am| !ref_is_action_mapping(am) && am.to.contains(x));
                 if !ok { fail("C04", format!("stale modifier {:?} down when {:?} is pressed", x, fin)); }
               } }
             }
@@ -197,7 +201,7 @@ pub fn check_history(prop: &str, layout: &Layout, hist: &Vec<Event>, trace: bool
       if layout.mappings.iter().any(|mp| mp.from.contains(&f) || mp.to.contains(&f) || mp.absorbing.contains(&f)) { continue; }
       if *e == Pressed(f) && acted && !res.events.contains(&Pressed(f)) { fail("C05", format!("foreign key {:?}: press not forwarded", f)); }
       if phys.contains(&f) && dev_before.contains(&f) && !dev.contains(&f) && *e != Released(f) {
-        if !(is_action_key(&f) && norepeat_fired) { fail("C05", format!("foreign key {:?} lifted before its physical release", f)); }
+        if !(ref_is_action_key(&f) && norepeat_fired) { fail("C05", format!("foreign key {:?} lifted before its physical release", f)); }
       }
       if !phys.contains(&f) && dev.contains(&f) { fail("C05", format!("foreign key {:?} still down after its release", f)); }
       if !dev_before.contains(&f) && dev.contains(&f) && *e != Pressed(f) { fail("C05", format!("foreign key {:?} pressed spuriously", f)); }
@@ -218,8 +222,8 @@ pub fn check_history(prop: &str, layout: &Layout, hist: &Vec<Event>, trace: bool
         for x in mv.to.iter() {
           if !layout.mappings.iter().all(|lm| !lm.to.contains(x) || lm == mv) { continue; }
           if !res.events.contains(&Released(*x)) { continue; }
-          if !is_action_mapping(mv) && !is_action_key(x) { fail("C05", format!("modifier {:?} of the modifier-remapping {:?}, which stays in effect, was lifted by {:?}", x, mv, e)); }
-          if mv.repeat == Repeat::Normal && mv.to.iter().all(|o| is_action_key(o)) && !norepeat_fired { fail("C05", format!("output {:?} of the normal-repeat mapping {:?}, which stays in effect, was lifted by {:?} although no no-repeat mapping fired", x, mv, e)); }
+          if !ref_is_action_mapping(mv) && !ref_is_action_key(x) { fail("C05", format!("modifier {:?} of the modifier-remapping {:?}, which stays in effect, was lifted by {:?}", x, mv, e)); }
+          if mv.repeat == Repeat::Normal && mv.to.iter().all(|o| ref_is_action_key(o)) && !norepeat_fired { fail("C05", format!("output {:?} of the normal-repeat mapping {:?}, which stays in effect, was lifted by {:?} although no no-repeat mapping fired", x, mv, e)); }
         }
       }
     }
@@ -228,7 +232,7 @@ pub fn check_history(prop: &str, layout: &Layout, hist: &Vec<Event>, trace: bool
       for (mk, trig) in absorbed_track.iter().filter(|_| c08_in_scope) {
         if k != *trig && k != *mk {
           if let Some(am) = m.state.active_mappings.last() { if fired.is_some() && am.from.contains(mk) { fail("C08", format!("absorbed {:?} used by a later mapping {:?}", mk, am)); } }
-          for (ev, h) in &inst { if let Pressed(x) = ev { if is_action_key(x) && h.contains(mk) && !m.state.active_mappings.iter().any(|am| am.to.contains(mk)) { fail("C08", format!("absorbed {:?} is down when non-modifier {:?} is pressed", mk, x)); } } }
+          for (ev, h) in &inst { if let Pressed(x) = ev { if ref_is_action_key(x) && h.contains(mk) && !m.state.active_mappings.iter().any(|am| am.to.contains(mk)) { fail("C08", format!("absorbed {:?} is down when non-modifier {:?} is pressed", mk, x)); } } }
         }
       }
       absorbed_track.retain(|(mk, _)| *mk != k);
@@ -283,7 +287,8 @@ pub fn explore(prop: &str, secs: f64, seed: u64) -> i32 {
   let t0 = std::time::Instant::now();
   let mut r = Rng(seed.wrapping_mul(0x9E3779B97F4A7C15) | 1);
   let mut n: u64 = 0;
-  while t0.elapsed().as_secs_f64() < secs {
+  // the budget is a number of cases as well as a time: on a loaded machine the search goes on (up to 5x the time) until it has tried what an idle machine tries
+  while t0.elapsed().as_secs_f64() < secs || (n < (secs * 60000.0) as u64 && t0.elapsed().as_secs_f64() < 5.0 * secs) {
     for _ in 0..500 {
       n += 1;
       if prop == "C06" {
